@@ -8,7 +8,7 @@ from cpverif.models import rowmodel as RM
 LEVEL = "exploration"
 RULE = (
     "row sequences of 0-10 rows over key alphabets of 2-3 values per field (so duplicates occur at every pair of "
-    "positions), 1-4 declared fields, IsUnique key sets of 1-3 fields, DistinctCount with each of < <= == != >= > and "
+    "positions), 1-4 declared fields (in 30% of the cases one of them a Decimal field whose cells spell two numbers in two ways each), IsUnique key sets of 1-3 fields, DistinctCount with each of < <= == != >= > and "
     "thresholds 0-4 (a quarter of them with one or two more comparisons of the field joined by and / or), both declaration orders of the two checks, the three error modes, interleaved rows rejected for a "
     "field error or a wrong item count; thorough additionally enumerates all sequences of up to 5 rows over 5 row kinds. "
     "Every third case creates the readers of its three runs (one per error mode) up front on one CID and reads them one after the other. Observed through cutplace.Reader (rows, close, error.location, see_also_location; every second raise-mode run through cutplace.rows instead; a sixth of the cases judge the second run of a Reader that was read and closed before) and compared with M-checks. A "
@@ -27,7 +27,17 @@ def gen_case(rng):
     alphabet = rng.choice([["a", "b"], ["a", "b", "c"], ["x", "y"], ["1", "2", "3"]])
     fields = []
     may_be_empty = []
+    numeric = rng.randrange(nfields) if rng.random() < 0.3 else None
+    alphabets = []
     for i in range(nfields):
+        if i == numeric:
+            # a number field: the values of a key (and the distinct values) are the cells as they stand in the data, so
+            # two spellings of one number are two values
+            alphabets.append(["1.5", "1.50", "2", "2.0"])
+            may_be_empty.append(False)
+            fields.append({"name": "k%d" % i, "type": "Decimal", "empty": False, "length": "", "rule": ""})
+            continue
+        alphabets.append(alphabet)
         rule = ", ".join(alphabet)
         empty = rng.random() < 0.35
         may_be_empty.append(empty)
@@ -56,7 +66,7 @@ def gen_case(rng):
     rows = []
     for _ in range(rng.randint(0, 10)):
         # the empty text is one more value of a field that may be empty (and counts as a key / distinct value)
-        row = [rng.choice(alphabet + [""]) if may_be_empty[k] else rng.choice(alphabet) for k in range(nfields)]
+        row = [rng.choice(alphabets[k] + [""]) if may_be_empty[k] else rng.choice(alphabets[k]) for k in range(nfields)]
         r = rng.random()
         if r < 0.12:
             row[rng.randrange(nfields)] = "BAD"
